@@ -3,6 +3,8 @@ import IweModel.Model.Path
 import Driver.GraphOps
 import Driver.RouterOps
 import Driver.FsOps
+import Driver.PosOps
+import Driver.UriOps
 
 open Iwe
 
@@ -42,6 +44,10 @@ def dispatch : Sexp → Except String Sexp
     RouterOps.runOp (w == "true") (c == "true") (notes.toNat?.getD 1) acts
   | .list [.atom "fs.writeFile", .atom a, .str base, .str key, .atom n] =>
     .ok (FsOps.writeFileOp (a == "true") base key (n.toNat?.getD 1))
+  | .list (.atom "pos.ranges" :: .str content :: rs) => PosOps.rangesOp content rs
+  | .list [.atom "uri.keyToUrl", .str b, .str k] => .ok (UriOps.keyToUrlOp b k)
+  | .list [.atom "uri.urlToKey", .str b, .str u] => .ok (UriOps.urlToKeyOp b u)
+  | .list [.atom "uri.safeKey", .str k] => .ok (.atom (if UriOps.safeKey k then "true" else "false"))
   | other => .error s!"unknown request {other.toStr.take 80}"
 
 partial def loop (h : IO.FS.Stream) (out : IO.FS.Stream) : IO Unit := do
